@@ -84,6 +84,28 @@ def c13_oracle(case, obs):
                 # (its child cannot have been reset by a listener close nor have exhausted its SYN-ACK retransmits)
                 out.append(("step %d: connect of slot %d to (%d,%d) was refused although a listener for it existed during the "
                             "whole attempt (steps %d..%d)" % (i, c[1], k["ia"], k["port"], k["start"], i), None))
+    # --- nothing listens there: the SYN must be answered with a RST at the host's next egress ---
+    def ever_listened(host, ia, port, upto):
+        return any(h == host and lport == port and lia in (ia, 0) and t0 <= upto for (h, lia, lport, t0, t1, _) in tl)
+    pending_rst = []          # (step of delivery, host, client ia, client port, server ia, server port)
+    for i, (c, o) in enumerate(zip(script, ob)):
+        pk = []
+        if c[0] in ("deliver", "dup") and o.get("r") == "ok":
+            pk = [o["p"]]
+        elif c[0] == "flush":
+            pk = o["pk"]
+        for p in pk:
+            if p[0] == 0 and p[7] & F.F_SYN and not p[7] & (F.F_ACK | F.F_RST) and 2 <= p[2] < 2 + nh:
+                if not ever_listened(p[2] - 2, p[2], p[4], i):
+                    pending_rst.append((i, p[2] - 2, p[1], p[3], p[2], p[4]))
+        if c[0] == "egress" and pending_rst:
+            rsts = {(q[2], q[4], q[1], q[3]) for q in o["pk"] if q[0] == 0 and q[7] & F.F_RST}
+            for (j, h, cia, cport, sia, sport) in pending_rst:
+                if (cia, cport, sia, sport) not in rsts:
+                    out.append(("step %d: a SYN from (%d,%d) was delivered to (%d,%d) at step %d where nothing has ever listened, "
+                                "but the host's next egress carries no RST for it (the connect cannot be refused)"
+                                % (i, cia, cport, sia, sport, j), None))
+            pending_rst = []
     # --- backlog bound and accept-once / mirrored addresses ---
     addrs = stream_addrs(case, obs)
     seen_from = {}
